@@ -6,24 +6,47 @@ Tie: every byting function of the working tree vs the model on the same argument
 Oracle (independent of the model): the property stated with Python ints / int.to_bytes / bytes.hex:
      unpack(pack(fields)) == fields masked to their widths (+ zero padding field), packifyInto frames the same
      bytes, reverse variants are mirror images, the conversions are inverse on their domains, signExtend is
-     two's complement."""
+     two's complement.
+Input preservation: the Lean functions are pure, so in the model's terms "a codec does not change its argument" is the
+     statement that the argument after the call equals the argument before it.  The check therefore (a) compares every
+     mutable argument (bytearray, list) before/after every call — only packifyInto's target buffer may change, (b) feeds
+     ONE buffer object to a decoder twice and emits the buffer afterwards as an `arg` line that must equal the model's
+     input, (c) feeds the same bytes as bytes, bytearray and list and demands equal results."""
 import itertools
 import core
 
 ERRS = {ValueError: "ERR ValueError", TypeError: "ERR TypeError", IndexError: "ERR IndexError"}
 
 
-def call(f, *a, **k):
-    """run f; ('ok', value) or ('err', canonical error line)"""
+def _snap(x):
+    """snapshot of a mutable argument (None for immutable ones)"""
+    if isinstance(x, bytearray):
+        return bytes(x)
+    if isinstance(x, list):
+        return list(x)
+    return None
+
+
+def call(f, *a, inplace=()):
+    """run f; ('ok', value) or ('err', canonical error line).
+    Input preservation: every mutable argument (bytearray, list) is compared before/after the call; a codec that
+    changes an argument — other than a documented in-place target listed in `inplace` — yields the line
+    ARG-MUTATED ... instead of its result (the Lean functions are pure: the argument after the call IS the argument)."""
+    before = [None if i in inplace else _snap(x) for i, x in enumerate(a)]
     try:
-        return "ok", f(*a, **k)
+        res = "ok", f(*a)
     except core.HarnessTimeout:
         raise
     except Exception as ex:
+        res = "err", "ERR other:" + type(ex).__name__
         for t, s in ERRS.items():
             if type(ex) is t:
-                return "err", s
-        return "err", "ERR other:" + type(ex).__name__
+                res = "err", s
+    for i, (b0, x) in enumerate(zip(before, a)):
+        if b0 is not None and _snap(x) != b0:
+            show = (lambda v: bytes(v).hex() or "-") if isinstance(x, bytearray) else repr
+            return "err", "ARG-MUTATED %s argument %d: %s -> %s" % (getattr(f, "__name__", "?"), i, show(b0), show(_snap(x)))
+    return res
 
 
 def hx(b):
@@ -137,12 +160,14 @@ class CHECK(core.Check):
             "optional explicit size, values beyond the width, negative values, bools, occasionally invalid: negative "
             "width, too few fields, size too small) packed, unpacked, packed into a random buffer at a random offset, "
             "both byte orders; unpack = random bytes decoded; bytes/unbytes, hex/unhex, bin/unbin, sign, byte = the "
-            "scalar codecs incl. malformed strings. non-trivial = the call under test returned a value (no exception) "
+            "scalar codecs incl. malformed strings. Every decoder gets one shared bytearray twice plus the same bytes as "
+            "bytes / list; the buffer is re-read after the calls (argument must be unchanged). non-trivial = the call under test returned a value (no exception) "
             "and the input is not empty/zero-width; distinct by full case content. One packall case stands for up to "
             "256 vectors (vector count in coverage.vectors)")
     TRUSTED = ["correspondence: every function of ioflo/aid/byting.py named in the property (and packByte/unpackByte) "
                "is run in-process on the same arguments as the Lean model (driver engine 'bits'); compared: returned "
-               "bytes / tuples / ints / strings and the exception class",
+               "bytes / tuples / ints / strings, the exception class, and the content of every mutable argument after "
+               "the call (must equal the input, the Lean functions being pure; packifyInto's target excepted)",
                "CPython: str.split + int() of the format string, bytearray(), '{:02x}'.format, int(s,16), unbounded "
                "int bit operations (the model uses mod/div by powers of two on Int)",
                "strings are restricted to ASCII on the unbinize path (int() of non-ASCII Unicode digits is outside the model)"]
@@ -361,17 +386,30 @@ class CHECK(core.Check):
             for rev in (False, True):
                 st, p = line(call(B.packify, fs, fields, size, rev), hx)
                 if st == "ok":
-                    line(call(B.unpackify, fs, p, boolean, size, rev), flds)
+                    snap = bytes(p)
+                    line(call(B.unpackify, fs, p, boolean, size, rev), flds)      # the packed bytearray itself
+                    line(call(B.unpackify, fs, p, boolean, size, rev), flds)      # ... decoded a second time
+                    out.append("arg " + hx(p))                                    # ... and what is left of it
+                    line(call(B.unpackify, fs, snap, boolean, size, rev), flds)   # bytes input
                 else:
-                    out.append(p)
+                    out += [p] * 4
                 buf = bytearray(unhx(c["buf"]))
-                st, r = call(B.packifyInto, buf, fs, fields, size, c["offset"], rev)
+                st, r = call(B.packifyInto, buf, fs, fields, size, c["offset"], rev, inplace=(0,))
                 out.append("%s %s" % (hx(buf), r) if st == "ok" else r)
             return out
         if k == "unpack":
             fs = fmtstr(c["fmt"])
-            line(call(B.unpackify, fs, bytearray(unhx(c["b"])), c["boolean"], c["size"], c["reverse"]), flds)
-            line(call(B.unpackify, fs, bytearray(unhx(c["b"])[::-1]), c["boolean"], c["size"], not c["reverse"]), flds)
+            raw = unhx(c["b"])
+            X = bytearray(raw)                       # ONE buffer object, decoded twice, then inspected
+            line(call(B.unpackify, fs, X, c["boolean"], c["size"], c["reverse"]), flds)
+            line(call(B.unpackify, fs, X, c["boolean"], c["size"], c["reverse"]), flds)
+            out.append("arg " + hx(X))
+            line(call(B.unpackify, fs, raw, c["boolean"], c["size"], c["reverse"]), flds)          # bytes
+            line(call(B.unpackify, fs, list(raw), c["boolean"], c["size"], c["reverse"]), flds)    # list of ints
+            Y = bytearray(raw[::-1])                 # the mirror image, same treatment
+            line(call(B.unpackify, fs, Y, c["boolean"], c["size"], not c["reverse"]), flds)
+            line(call(B.unpackify, fs, Y, c["boolean"], c["size"], not c["reverse"]), flds)
+            out.append("arg " + hx(Y))
             return out
         if k == "bytes":
             n, size = c["n"], c["size"]
@@ -385,20 +423,28 @@ class CHECK(core.Check):
             return out
         if k == "unbytes":
             b = unhx(c["b"])
+            X = bytearray(b)                         # ONE buffer object for all decodings
             for rev in (False, True):
-                st, n = line(call(B.unbytify, bytearray(b), rev), str)
+                st, n = line(call(B.unbytify, X, rev), str)
                 if st == "ok":
                     line(call(B.bytify, n, len(b), rev, False), hx)
                     line(call(B.bytify, n, len(b), rev, True), hx)
                 else:
                     out += [n, n]
+            line(call(B.unbytify, X, False), str)                # decoded again
+            out.append("arg " + hx(X))                           # what is left of the buffer
+            line(call(B.unbytify, b, False), str)                # bytes
             line(call(B.unbytify, list(b), False), str)          # any iterable of ints
             return out
         if k == "hex":
             b = unhx(c["b"])
-            st, h = line(call(B.hexify, bytearray(b)), sout)
+            X = bytearray(b)
+            st, h = line(call(B.hexify, X), sout)
             if st == "ok":
                 line(call(B.unhexify, h), hx)
+            line(call(B.hexify, X), sout)                        # same buffer object again
+            out.append("arg " + hx(X))
+            line(call(B.hexify, b), sout)                        # bytes
             st, h = line(call(B.hexize, b), sout)
             if st == "ok":
                 line(call(B.unhexize, h), hx)
@@ -455,15 +501,19 @@ class CHECK(core.Check):
             f, fv, s = ilist(c["fmt"]), ilist(c["fields"]), sz(c["size"])
             r = []
             for rev in ("0", "1"):
+                rt = "rt-pack %s %s %s %s %s" % (f, fv, s, fl(c["boolean"]), rev)
                 r.append("packify %s %s %s %s" % (f, fv, s, rev))
-                r.append("rt-pack %s %s %s %s %s" % (f, fv, s, fl(c["boolean"]), rev))
+                r += [rt, rt]
+                r.append("packify %s %s %s %s" % (f, fv, s, rev))       # the argument of the decodings, afterwards
+                r.append(rt)
                 r.append("packinto %s %s %s %s %d %s" % (c["buf"], f, fv, s, c["offset"], rev))
             r.append("region onebit %s %s" % (f, fv))
             return r
         if k == "unpack":
             f, s = ilist(c["fmt"]), sz(c["size"])
-            return ["unpackify %s %s %s %s %s" % (f, c["b"], fl(c["boolean"]), s, fl(c["reverse"])),
-                    "unpackify %s %s %s %s %s" % (f, hx(unhx(c["b"])[::-1]), fl(c["boolean"]), s, fl(not c["reverse"]))]
+            u = "unpackify %s %s %s %s %s" % (f, c["b"], fl(c["boolean"]), s, fl(c["reverse"]))
+            m = "unpackify %s %s %s %s %s" % (f, hx(unhx(c["b"])[::-1]), fl(c["boolean"]), s, fl(not c["reverse"]))
+            return [u, u, u, u, m, m]
         if k == "bytes":
             r = []
             for rev in "01":
@@ -476,10 +526,11 @@ class CHECK(core.Check):
             for rev in "01":
                 r += ["unbytify %s %s" % (c["b"], rev), "rt-unbytes %s %s 0" % (c["b"], rev),
                       "rt-unbytes %s %s 1" % (c["b"], rev)]
-            r.append("unbytify %s 0" % c["b"])
+            r += ["unbytify %s 0" % c["b"]] * 3
             return r
         if k == "hex":
-            return ["hexify " + c["b"], "rt-hex " + c["b"]] * 2
+            return ["hexify " + c["b"], "rt-hex " + c["b"], "hexify " + c["b"], "hexify " + c["b"],
+                    "hexify " + c["b"], "rt-hex " + c["b"]]
         if k == "unhex":
             return ["unhexify " + senc(c["h"]), "rt-unhex " + senc(c["h"])] * 2
         if k == "bin":
@@ -499,6 +550,17 @@ class CHECK(core.Check):
         r = list(replies)
         if k in ("pack", "byte"):
             self._region[core.case_key(c)] = (r.pop() == "1")     # the Lean region predicate, same driver run
+        # The Lean functions are pure: the argument of a decoding after the call is the argument before the call.
+        if k == "pack":
+            for base in (0, 6):
+                if not r[base + 3].startswith("ERR"):
+                    r[base + 3] = "arg " + r[base + 3]
+            return r
+        if k == "unpack":
+            b = unhx(c["b"])
+            return r[:2] + ["arg " + hx(b)] + r[2:6] + ["arg " + hx(b[::-1])]
+        if k == "unbytes":
+            return r[:7] + ["arg " + c["b"]] + r[7:]
         if k in ("packall", "packvec"):
             # after a failed pack the implementation side prints "skip"; the model's rt lines repeat the error
             out, i = [], 0
@@ -514,7 +576,9 @@ class CHECK(core.Check):
             # a failed first call is printed once by the implementation side
             if k == "byte":
                 return ([r[0]] if r[0].startswith("ERR") else r[:2]) + r[2:]
-            if k in ("hex", "unhex"):
+            if k == "hex":
+                return r[:3] + ["arg " + c["b"]] + r[3:]
+            if k == "unhex":
                 out = []
                 for a, b in (r[0:2], r[2:4]):
                     out += [a] if a.startswith("ERR") else [a, b]
@@ -535,6 +599,9 @@ class CHECK(core.Check):
         k = c["kind"]
         if any(o.startswith("HARNESS") for o in out):
             return "harness: " + out[0]
+        for o in out:
+            if o.startswith("ARG-MUTATED"):      # only packifyInto may write to an argument (its target buffer)
+                return "a codec changed its argument: " + o[12:]
         if k in ("packall", "packvec"):
             fmt = c["fmt"]
             vecs = c["vecs"] if k == "packvec" else vectors(fmt, c["lo"], c["n"])
@@ -551,11 +618,11 @@ class CHECK(core.Check):
             return None
         if k == "pack":
             fmt, fields, size = c["fmt"], c["fields"], c["size"]
-            if not valid_format(fmt, len(fields), size) or len(out) != 6:
-                return None if len(out) == 6 else "wrong number of results"
+            if not valid_format(fmt, len(fields), size) or len(out) != 12:
+                return None if len(out) == 12 else "wrong number of results"
             s = default_size(fmt) if size is None else size
             want = expected_fields(fmt, fields, size, c["boolean"])
-            p0, u0, i0, p1, u1, i1 = out
+            p0, u0, u0b, a0, u0c, i0, p1, u1, u1b, a1, u1c, i1 = out
             if p0.startswith("ERR") or p1.startswith("ERR"):
                 return "packify raised on a valid format: %s / %s" % (p0, p1)
             if len(unhx(p0)) != s:
@@ -566,6 +633,13 @@ class CHECK(core.Check):
                 return "reverse=True: unpackify(packify(fields)) = %s, expected %s" % (u1, want)
             if unhx(p1) != unhx(p0)[::-1]:
                 return "packify(reverse=True) = %s is not the mirror image of %s" % (p1, p0)
+            for name, p, u, ub, a, uc in (("False", p0, u0, u0b, a0, u0c), ("True", p1, u1, u1b, a1, u1c)):
+                if a != "arg " + p:
+                    return "reverse=%s: unpackify changed the packed buffer it was given: %s -> %s" % (name, p, a[4:])
+                if ub != u:
+                    return "reverse=%s: unpacking the same buffer a second time gives %s, the first time %s" % (name, ub, u)
+                if uc != u:
+                    return "reverse=%s: unpackify of the same bytes as bytes gives %s, as bytearray %s" % (name, uc, u)
             buf = unhx(c["buf"])
             off = c["offset"]
             ext = buf + b"\0" * max(0, off + s - len(buf))
@@ -575,8 +649,18 @@ class CHECK(core.Check):
                     return "packifyInto(reverse=%s) left %s, expected %s %d (same bytes at the offset, others untouched)" % (name, i, hx(wantbuf), s)
             return None
         if k == "unpack":
-            if len(out) == 2 and out[0] != out[1]:
-                return "unpackify(b, reverse) = %s but unpackify(mirror(b), not reverse) = %s" % (out[0], out[1])
+            if len(out) != 8:
+                return "wrong number of results"
+            u, ub, a, ubytes, ulist, m, mb, am = out
+            raw = unhx(c["b"])
+            if a != "arg " + hx(raw) or am != "arg " + hx(raw[::-1]):
+                return "unpackify changed the buffer it was given: %s -> %s / %s -> %s" % (hx(raw), a[4:], hx(raw[::-1]), am[4:])
+            if ub != u or mb != m:
+                return "unpacking the same buffer a second time gives %s / %s, the first time %s / %s" % (ub, mb, u, m)
+            if ubytes != u or ulist != u:
+                return "unpackify of the same bytes as bytearray / bytes / list gives %s / %s / %s" % (u, ubytes, ulist)
+            if u != m:
+                return "unpackify(b, reverse) = %s but unpackify(mirror(b), not reverse) = %s" % (u, m)
             return None
         if k == "bytes":
             n, size = c["n"], c["size"]
@@ -603,8 +687,12 @@ class CHECK(core.Check):
             return None
         if k == "unbytes":
             b = unhx(c["b"])
-            if len(out) != 7:
+            if len(out) != 10:
                 return "wrong number of results"
+            if out[7] != "arg " + c["b"]:
+                return "unbytify changed the buffer it was given: %s -> %s" % (c["b"], out[7][4:])
+            if not (out[6] == out[0] == out[8] == out[9]):
+                return "unbytify of the same bytes (again / as bytes / as list) gives %s, first %s" % ([out[6], out[8], out[9]], out[0])
             for j, rev in enumerate((False, True)):
                 u, b0, b1 = out[3 * j:3 * j + 3]
                 ref = int.from_bytes(b, "little" if rev else "big")
@@ -614,10 +702,14 @@ class CHECK(core.Check):
                     return "bytify(unbytify(b), len(b), reverse=%s) = %s / %s, expected %s" % (rev, b0, b1, c["b"])
             return None
         if k == "hex":
-            if len(out) != 4:
+            if len(out) != 7:
                 return "hexify/hexize raised: %s" % out
-            if out[1] != c["b"] or out[3] != c["b"]:
-                return "unhexify(hexify(%s)) = %s, unhexize(hexize) = %s" % (c["b"], out[1], out[3])
+            if out[3] != "arg " + c["b"]:
+                return "hexify changed the buffer it was given: %s -> %s" % (c["b"], out[3][4:])
+            if not (out[2] == out[0] == out[4]):
+                return "hexify of the same bytes (again / as bytes) gives %s, first %s" % ([out[2], out[4]], out[0])
+            if out[1] != c["b"] or out[6] != c["b"]:
+                return "unhexify(hexify(%s)) = %s, unhexize(hexize) = %s" % (c["b"], out[1], out[6])
             return None
         if k == "unhex":
             h = c["h"]
